@@ -126,10 +126,26 @@ Definition quantify (ibaq : list (str * nat)) (cutoff_of : list Q -> Q) (nsilac 
   | Raise e => Raise e
   end.
 
-(* the TMT reporter cells of the same table: one list per group with precursors *)
-Definition quantify_tmt (cutoff_of : list Q -> Q) (width : nat) (groups : list (list str)) (rows : list prec) : list (list Q) :=
+(* with an experimental design (--experimental_design_file / --file_list_file) the experiments and their ORDER come from the design
+   (first occurrence order of its Experiment column) and every row carries the experiment its raw file is assigned to: the rows are
+   given with that experiment already, the order is an input *)
+Definition quantify_design (ibaq : list (str * nat)) (cutoff_of : list Q -> Q) (nsilac : nat) (groups : list (list str))
+           (rows : list prec) (exps : list str) : res (list str * list qrow) :=
   let s := create_index (of_list groups) in
-  let exps := experiments rows in
+  let cut := cutoff_of (cutoff_peps s rows) in
+  let with_prec := filter (fun ig => nonempty (attached s rows (fst ig))) (combine (seq 0 (length groups)) groups) in
+  match fold_right (fun ig acc => match quant_row ibaq cut exps nsilac (snd ig) (attached s rows (fst ig)), acc with
+                                  | Ok r, Ok a => Ok (r :: a) | Raise e, _ => Raise e | _, Raise e => Raise e end)
+                   (Ok []) with_prec with
+  | Ok l => Ok (exps, l)
+  | Raise e => Raise e
+  end.
+
+(* the TMT reporter cells of the same table: one list per group with precursors *)
+Definition quantify_tmt (cutoff_of : list Q -> Q) (width : nat) (groups : list (list str)) (rows : list prec)
+           (design : option (list str)) : list (list Q) :=
+  let s := create_index (of_list groups) in
+  let exps := match design with Some d => d | None => experiments rows end in
   let cut := cutoff_of (cutoff_peps s rows) in
   map (fun ig => tmt_intensities cut exps width (retain cut (attached s rows (fst ig))))
       (filter (fun ig => nonempty (attached s rows (fst ig))) (combine (seq 0 (length groups)) groups)).
